@@ -656,41 +656,248 @@ def perturbed(c, delta):
 # ------------------------------------------------------------------------------------------------
 
 def _run_kw(kw):
+    """one call.  kw: keywords of reconcile_nucleus; '_pos' (optional) = leading arguments passed positionally;
+    '_via': 'from_arrays' = the same clues as the columns of a one-atom from_arrays call (answer = the atom's fields)"""
     from qcelemental.molparse import reconcile_nucleus
+    kw = dict(kw)
+    pos = tuple(kw.pop("_pos", ()))
+    via = kw.pop("_via", None)
+    kw.setdefault("verbose", -1)
     try:
         with contextlib.redirect_stdout(io.StringIO()):
-            r = reconcile_nucleus(verbose=-1, **kw)
+            if via == "from_arrays":
+                from qcelemental.molparse import from_arrays
+                col = {"A": "elea", "Z": "elez", "E": "elem", "mass": "mass", "real": "real", "label": "elbl"}
+                fkw = {col[k]: [v] for k, v in kw.items() if k in col}
+                fkw.update({k: v for k, v in kw.items() if k not in col})
+                rec = from_arrays(geom=[0.0, 0.0, 0.0], units="Bohr", fix_com=True, fix_orientation=True, **fkw)
+                r = (int(rec["elea"][0]), int(rec["elez"][0]), str(rec["elem"][0]), float(rec["mass"][0]), bool(rec["real"][0]),
+                     str(rec["elbl"][0]))
+            else:
+                r = reconcile_nucleus(*pos, **kw)
         return ("Ok", tuple(r))
     except Exception as e:
         return ("Err", ekind_of(e))
 
 
-def fresh_eval(kw):
-    """evaluate one query in a forked child of this process, so that nothing the query does (cache fills, any
-    other state) is seen by later queries, and nothing earlier queries did after the fork point is seen by it"""
+def cache_clear():
+    """empty the result cache, whatever it is (a memo without cache_clear cannot be emptied: then histories simply
+    continue — every answer is still compared with the pristine-process answer)"""
+    from qcelemental.molparse import reconcile_nucleus
+    f = getattr(reconcile_nucleus, "cache_clear", None)
+    if callable(f):
+        f()
+
+
+def cache_hits():
+    from qcelemental.molparse import reconcile_nucleus
+    f = getattr(reconcile_nucleus, "cache_info", None)
+    try:
+        return int(f().hits) if callable(f) else 0
+    except Exception:
+        return 0
+
+
+def _read_all(fd):
+    buf = b""
+    while True:
+        chunk = os.read(fd, 65536)
+        if not chunk:
+            break
+        buf += chunk
+    os.close(fd)
+    return buf
+
+
+def fresh_seq(seq, clear_first=False):
+    """run a sequence of queries in a forked child of this process and return the LAST answer: nothing the child does
+    is seen by later queries of this process, and nothing this process did after the fork point is seen by the child"""
     r, w = os.pipe()
     pid = os.fork()
     if pid == 0:
         try:
             os.close(r)
-            os.write(w, repr(_run_kw(kw)).encode())
+            if clear_first:
+                cache_clear()
+            ans = None
+            for kw in seq:
+                ans = _run_kw(kw)
+            os.write(w, repr(ans).encode())
         finally:
             os._exit(0)
     os.close(w)
-    buf = b""
-    while True:
-        chunk = os.read(r, 65536)
-        if not chunk:
-            break
-        buf += chunk
-    os.close(r)
+    buf = _read_all(r)
     os.waitpid(pid, 0)
     return eval(buf.decode())   # a tuple literal written by the child above
 
 
+def fresh_eval(kw):
+    """evaluate one query in a forked child of this process (see fresh_seq)"""
+    return fresh_seq([kw])
+
+
+def fresh_eval_many(kws, jobs=None):
+    """[fresh_eval(kw) for kw in kws], spread over a few forked workers: each worker (a pristine copy of this process
+    that never calls reconcile_nucleus itself) forks one grandchild per query"""
+    kws = list(kws)
+    if not kws:
+        return []
+    jobs = jobs or max(1, min(8, int(os.environ.get("VERIF_JOBS", "6") or 6)))
+    chunks = [kws[i::jobs] for i in range(jobs)]
+    procs = []
+    for ch in chunks:
+        r, w = os.pipe()
+        pid = os.fork()
+        if pid == 0:
+            try:
+                os.close(r)
+                os.write(w, repr([fresh_eval(kw) for kw in ch]).encode())
+            finally:
+                os._exit(0)
+        os.close(w)
+        procs.append((pid, r))
+    outs = []
+    for pid, r in procs:
+        buf = _read_all(r)
+        os.waitpid(pid, 0)
+        try:
+            outs.append(eval(buf.decode()))
+        except Exception:
+            outs.append(None)
+    res = [None] * len(kws)
+    for i, out in enumerate(outs):
+        if out is None or len(out) != len(chunks[i]):
+            # a worker died (memory pressure on a shared machine): this process is still pristine, do its share here
+            out = [fresh_eval(kw) for kw in chunks[i]]
+        res[i::jobs] = out
+    return res
+
+
+def gen_clue_pairs(ctx, T):
+    """Pairs of calls (q, q2, kind) that differ ONLY in one clue / option being unspecified in q and explicit in q2 —
+    the explicit value agreeing with q's answer, or contradicting it — for every clue kind (A, Z, E, mass, real,
+    label and the parts of a label) and every option (speclabel, nonphysical, mtol, verbose), plus an explicit None,
+    a positional spelling and the same through one-atom from_arrays columns.  A result cache whose key identifies
+    'unspecified' with some explicit value answers q2 with q's result (or the reverse)."""
+    rng = ctx.rng
+    zs = [1, 2, 6, 17, 27, 92] + [rng.randrange(3, 118) for _ in range(5 if not ctx.thorough else 40)]
+    full_for = set([1, 27, 92] + zs[6:8]) if not ctx.thorough else set(zs)      # all 15 base calls; the others: 6 of them
+    pairs = []
+    seen = set()
+
+    def add(q, q2, kind):
+        key = (repr(q), repr(q2))
+        if q != q2 and key not in seen:
+            seen.add(key)
+            pairs.append((q, q2, kind))
+
+    for z in dict.fromkeys(zs):
+        el = T["z2e"][z]
+        iso = T["iso"][el]
+        a = T["ea2a"][el]
+        m = float(T["ea2massstr"][el])
+        oz = rng.choice([x for x in (1, 2, 6, 8, 26, 79) if x != z])
+        oel = T["z2e"][oz]
+        a_bad = next(x for x in (a + 1, a + 2, a + 3, a + 50, a + 300) if x not in iso)
+        a_alt = next((x for x in sorted(iso) if x != a), None)
+        tag = rng.choice(["_x", "_Tag", "4", "_1"])
+        values = {      # clue kind -> explicit values: agreeing first, then contradicting / answer-changing
+            "A": [a, a_bad] + ([a_alt] if a_alt is not None else []) + [0],
+            "Z": [z, oz, 0],
+            "E": [el, el.lower(), oel, ""],
+            "mass": [m, m + 0.4, m + 30.0, 0.0],
+            "real": [True, False],
+            "label": [el, "@" + el, "Gh(%s)" % el.lower(), "%d%s" % (a, el.upper()), el + tag, oel, "@" + oel, ""],
+        }       # the explicit zeros / empty strings: "falsy" is not "unspecified" either
+        options = {"speclabel": [True, False], "nonphysical": [False, True], "mtol": [1.0e-3, 0.5], "verbose": [-1, 0, 2]}
+        bases = [dict(Z=z), dict(E=el), dict(label=el), dict(label="@" + el), dict(label="Gh(%s%s)" % (el, tag)),
+                 dict(Z=z, A=a), dict(E=el, mass=m), dict(Z=z, real=False), dict(E=el, real=True), dict(label="%d%s" % (a, el)),
+                 dict(A=a, Z=z, E=el, mass=m), dict(Z=z, label=tag, speclabel=False), dict(label="@%s@%s" % (el, T["ea2massstr"][el])),
+                 dict(Z=z, mass=m + 0.4), dict(Z=z, mass=float(round(m)) + 0.6, nonphysical=True)]
+        if z not in full_for:
+            bases = bases[:4] + bases[7:8] + bases[10:11]
+        for q in bases:
+            for k, vs in values.items():
+                if k in q:
+                    continue
+                if k == "label" and q.get("speclabel") is False:
+                    continue
+                for v in vs:
+                    add(q, dict(q, **{k: v}), "clue " + k)
+                add(q, dict(q, **{k: None}), "explicit None " + k)
+            for k, vs in options.items():
+                if k in q:
+                    continue
+                for v in vs:
+                    add(q, dict(q, **{k: v}), "option " + k)
+            if "label" in q and q.get("speclabel", True):
+                lb = q["label"]
+                core = lb[1:] if lb.startswith("@") else (lb[3:-1] if lb[:3].lower() == "gh(" else lb)
+                ghost = core != lb
+                core_nomass = core.split("@")[0]
+                alts = [core if ghost else "@" + core, core if ghost else "Gh(" + core + ")", lb.swapcase(), lb.lower()]
+                if core_nomass == core:
+                    alts += [lb.replace(core, core + "@" + T["ea2massstr"][el]), lb.replace(core, core + "@%.1f" % (m + 30))]
+                if core_nomass[0].isalpha():
+                    alts += [lb.replace(core, "%d%s" % (a, core)), lb.replace(core, "%d%s" % (a_bad, core))]
+                if core_nomass.isalpha():
+                    alts += [lb.replace(core, core + "_q"), lb.replace(core, core + "7")]
+                for l2 in alts:
+                    add(q, dict(q, label=l2), "label part")
+            # the same clue set, A (and Z) positional
+            if "A" in q:
+                rest = {k: v for k, v in q.items() if k != "A"}
+                add(q, dict(rest, _pos=(q["A"],)), "positional")
+        # through from_arrays (per-atom columns None vs explicit); verbose is not a column
+        for q in (dict(label="@" + el + "_x"), dict(label=el), dict(E=el), dict(Z=z, A=a)):
+            fq = dict(q, _via="from_arrays")
+            for k, vs in values.items():
+                if k in q or (k == "label" and "E" not in q and "Z" not in q):
+                    continue
+                for v in vs[:2] + vs[-1:]:
+                    add(fq, dict(fq, **{k: v}), "from_arrays column " + k)
+            add(q, fq, "direct vs from_arrays")
+    return pairs
+
+
+def clue_pair_rounds(ctx, corr, pairs, ref, clear):
+    """every pair in both orders on a warm cache (nothing is cleared between pairs); each answer must be the answer
+    the same call gets in a pristine process"""
+    nfail = 0
+    for order in (0, 1):
+        clear()
+        prefix = ["cache_clear"]
+        for q, q2, kind in pairs:
+            seq = (q, q2) if order == 0 else (q2, q)
+            for n, kw in enumerate(seq):
+                got = _run_kw(kw)
+                corr.count("history_cluepairs")
+                want = ref[repr(kw)]
+                if got != want:
+                    # smallest history that shows it: the sibling call alone, on an emptied cache
+                    small = ["cache_clear"] + [repr(x) for x in seq[:n]]
+                    if fresh_seq(list(seq[:n + 1]), clear_first=True) != want:
+                        pre = small
+                    else:
+                        pre = list(prefix)
+                    corr.failures.append({"stream": "history",
+                                          "case": {"call": repr(kw), "canonical": repr(kw), "round": "cluepairs/%d" % order,
+                                                   "pair_kind": kind, "prefix": pre},
+                                          "what": "answer depends on an earlier call that differs only in one clue/option being "
+                                                  "unspecified vs explicit (" + kind + ")",
+                                          "observed": [repr(want), repr(got)]})
+                    nfail += 1
+                    if nfail > 5:
+                        return
+                prefix.append(repr(kw))
+            if ref[repr(q)] != ref[repr(q2)]:
+                corr.hit("cluepair_answers_differ")
+            corr.hit("cluepair_" + kind.split(" ")[0])
+
+
 def history_stream(ctx, T, corr):
     """Run before anything else in this process has called reconcile_nucleus.  The same queries in permuted
-    orders, with int/float/bool spellings of equal keys (1 == 1.0 == True collide in the lru_cache key), with and
+    orders, with int/float/bool/numpy-scalar spellings of equal keys (1 == 1.0 == True collide in the lru_cache key), with and
     without cache_clear(); every answer must equal the answer the canonical spelling gets in a pristine
     process state (forked child)."""
     from qcelemental.molparse import reconcile_nucleus
@@ -708,13 +915,19 @@ def history_stream(ctx, T, corr):
     def spellings(kw):
         out = [kw]
         alt = {}
+        import numpy as np
         for k, v in kw.items():
             if k in ("Z", "A") and isinstance(v, int):
-                alt[k] = [float(v)] + ([True] if v == 1 else []) + ([False] if v == 0 else [])
+                alt[k] = [float(v)] + ([True] if v == 1 else []) + ([False] if v == 0 else []) + [np.int64(v), np.int16(v)] + \
+                         ([np.uint8(v)] if 0 <= v < 256 else [])
             elif k == "real":
-                alt[k] = [int(v), float(v)]
+                alt[k] = [int(v), float(v), np.bool_(v)]
             elif k == "mass" and float(v).is_integer():
                 alt[k] = [int(v)] + ([True] if v == 1 else [])
+            elif k == "mass":
+                alt[k] = [np.float64(v)]
+            elif k in ("E", "label") and isinstance(v, str):
+                alt[k] = [np.str_(v)]
         for k, vs in alt.items():
             for v in vs:
                 out.append(dict(kw, **{k: v}))
@@ -725,10 +938,17 @@ def history_stream(ctx, T, corr):
     hits = [0]
 
     def clear():
-        hits[0] += reconcile_nucleus.cache_info().hits
-        reconcile_nucleus.cache_clear()
+        hits[0] += cache_hits()
+        cache_clear()
 
-    reference = {i: fresh_eval(kw) for i, kw in enumerate(base)}
+    pairs = gen_clue_pairs(ctx, T)
+    pair_queries = {}
+    for q, q2, _ in pairs:
+        pair_queries.setdefault(repr(q), q)
+        pair_queries.setdefault(repr(q2), q2)
+    fresh = fresh_eval_many(base + list(pair_queries.values()))      # before this process makes its first call
+    reference = {i: fresh[i] for i in range(len(base))}
+    pair_ref = dict(zip(pair_queries.keys(), fresh[len(base):]))
     calls = [(i, sp) for i, kw in enumerate(base) for sp in spellings(kw)]
     prefix = []
     for rnd in range(3 if not ctx.thorough else 10):
@@ -776,6 +996,9 @@ def history_stream(ctx, T, corr):
                                   "observed": [repr(reference[i]), repr(got)]})
     corr.hit("history_eviction_filler_calls", filler)
     clear()
+    clue_pair_rounds(ctx, corr, pairs, pair_ref, clear)
+    clear()
+    corr.hit("history_cache_hits_total", hits[0])
 
 
 def verbose_stream(ctx, T, corr, cases):
@@ -783,8 +1006,7 @@ def verbose_stream(ctx, T, corr, cases):
     for c in cases:
         ref = impl_call(c, verbose=-1)
         for v in (0, 1, 2):
-            from qcelemental.molparse import reconcile_nucleus
-            reconcile_nucleus.cache_clear()
+            cache_clear()
             got = impl_call(c, verbose=v)
             corr.count("verbose")
             if got != ref:
@@ -961,8 +1183,7 @@ def replay(ctx, rp):
     case = rp["case"]
     if "input" in case:
         c = case["input"]
-        from qcelemental.molparse import reconcile_nucleus
-        reconcile_nucleus.cache_clear()
+        cache_clear()
         out = impl_call(c, verbose=case.get("verbose", -1))
         if "verbose" in case:
             ref = impl_call(c, verbose=-1)
@@ -979,7 +1200,7 @@ def replay(ctx, rp):
         ref = fresh_eval(canon)
         for step in case.get("prefix", []):
             if step == "cache_clear":
-                reconcile_nucleus.cache_clear()
+                cache_clear()
             else:
                 _run_kw(eval(step))
         got = _run_kw(kw)
@@ -1019,18 +1240,27 @@ LEVEL_TEXT = (
     "C06_parse_label_sound / _complete (the two halves), C06_not_an_element_only_for_unknown_names and "
     "C06_contradiction_is_validation_error (error class: NotAnElementError only when a clue names an element or nuclide that is not "
     "tabulated; contradictions among tabulated names raise ValidationError), C06_history_independent (a Coq model of the lru_cache "
-    "wrapper, maxsize 512, exceptions uncached, LRU eviction, cache_clear: every answer in every history equals the uncached answer). The model is tied to nucleus.py, "
+    "wrapper, maxsize 512, exceptions uncached, LRU eviction, cache_clear: every answer in every history equals the uncached answer), "
+    "C06_cache_key_must_separate (conversely, for any memo of that shape: history independence forces a call to be identified only "
+    "with stored calls of the same answer), C06_every_argument_is_significant (for each of the nine arguments two calls differing in "
+    "it only — clue unspecified vs explicit, option flipped — with different outcomes) and C06_cache_key_must_distinguish (so a "
+    "history-independent memo keys on all nine arguments). The model is tied to nucleus.py, "
     "regex.py and periodic_table.py on every run by differential execution: every element x random isotope x random clue subsets x "
     "consistent / one conflicting clue x label spellings x settings (exact comparison, masses as decimals), label strings (valid, "
     "near-valid, random over the grammar's alphabet) through parse_nucleus_label vs re, window-edge masses by three-point comparison, "
     "(on the edge, a few ulps and 1e-9..2e-5 either side), and on the implementation alone: the property oracle incl. feedback, a "
-    "call-history stream (permuted orders, 1/1.0/True key collisions in the lru_cache, cache_clear on/off, eviction beyond maxsize) "
-    "and a verbose-level stream.")
+    "call-history stream (permuted orders, 1/1.0/True key collisions in the lru_cache, cache_clear on/off, eviction beyond maxsize; "
+    "pairs of calls that differ only in one clue (A, Z, E, mass, real, label, parts of a label) or option (speclabel, nonphysical, "
+    "mtol, verbose) being unspecified vs explicit — agreeing or contradicting —, an explicit None, a positional spelling, and the same "
+    "clues as one-atom from_arrays columns, each pair in both orders on a warm cache, every answer compared with the answer of a "
+    "pristine forked process) and a verbose-level stream.")
 LEVEL_NOTE = (
     "Clause map (full text at the top of coq/Props/C06.v): table/clue agreement, nuclide-or--1, physical range, ghost/user tag -> "
     "C06_sound (+ _nuclide_key_is_table_row, _mass_range_meaning); default isotope -> C06_default_isotope; contradictions refused -> "
     "C06_contradiction_rejected, class -> C06_contradiction_is_validation_error / C06_not_an_element_only_for_unknown_names / "
-    "C06_fails_closed; history independence -> C06_history_independent (model of the cache) + history stream on the implementation; "
+    "C06_fails_closed; history independence -> C06_history_independent (model of the cache; its key hypothesis is necessary and "
+    "forces all nine arguments into the key: C06_cache_key_must_separate / _every_argument_is_significant / "
+    "_cache_key_must_distinguish) + history stream on the implementation (incl. unspecified-vs-explicit pairs); "
     "feedback -> C06_feedback_fixed_point (mtol <= 1/4); label grammar -> C06_parse_label_spec / _label_unambiguous / _refuses. "
     "The cache theorem assumes equal keys denote the same typed call (1 == 1.0 == True collisions are exercised on the "
     "implementation only). "
